@@ -2,7 +2,8 @@
 from ..core import Family
 from .. import plevel
 from . import engine_common as ec
-TRUSTED_BASE = ec.TB
+PROPERTY_FILES = ["C03", "C03_Stack"]
+TRUSTED_BASE = ec.TB + ["Properties/C03_Stack.v: the explicit-stack machine (Model/EngineStack.v, an independent literal transcription of Engine::next and SplitOnUnassigned) is PROVED to yield exactly what the recursive dfs / dfs_lim yield, for every scheduler, mode, check interval, clock and memory limit (solutions in order, best, counters, stop reason, stack depth)"]
 ASSUMPTIONS = ec.ASSUME
 RULE = ("case = random or structured propagator-level model (1-5 variables with holes/negatives/singletons, 0-4 propagators with views) "
         "run through enumerate to exhaustion; the yielded sequence must equal the model's sequence exactly and, as a set without "
